@@ -325,12 +325,104 @@ def _parents_of(n):
 _HCFG = {}
 
 
+
+HIER_PROX_REFERENCE = """
+def mlp_prox_grad(V, U, alpha, M):
+    u_abs_sorted = np.sort(np.abs(U), axis=1)[:, ::-1]
+    s = np.arange(U.shape[1] + 1.0).reshape((1, -1))
+    zeros = np.zeros((U.shape[0], 1))
+    a_s = alpha - M * np.concatenate([zeros, np.cumsum(u_abs_sorted, axis=1)], axis=1)
+    norm_v = np.linalg.norm(V, ord=2, axis=1, keepdims=True)
+    x = np.maximum(1 - a_s / norm_v, 0) / (1 + s * M ** 2)
+    w = M * x * norm_v
+    lower = np.concatenate([u_abs_sorted, zeros], axis=1)
+    idx = np.sum(lower > w, axis=1, keepdims=True)
+    x_star = np.take_along_axis(x, idx, axis=1).reshape((U.shape[0], 1))
+    w_star = np.take_along_axis(w, idx, axis=1).reshape((U.shape[0], 1))
+    beta_star = x_star * V
+    theta_star = np.where(U >= 0, 1, -1) * np.minimum(np.abs(U), w_star)
+    return beta_star, theta_star
+"""
+HIER_SITES = ["u_abs_sorted", "a_s", "norm_v", "x", "w", "intervals", "lower", "idx", "s", "x* and w* gathered at the same breakpoint", "beta_star", "theta*",
+              "feasibility |theta*| <= w* = M x* ||v|| = M ||beta*||", "returns (beta*, theta*)"]
+
+
+def _resolve_all(f, unit):
+    """the returned expression of a straight-line function with every local substituted (tuple unpackings of `.shape` become subscripts of
+    it, calls of the helper soft_threshold with a zero threshold are the identity); None if the function is not of that shape"""
+    import copy
+    body = [s_ for s_ in f.body if not (isinstance(s_, ast.Expr) and isinstance(s_.value, ast.Constant))]
+    if not body or not isinstance(body[-1], ast.Return) or body[-1].value is None:
+        return None
+    env = {}
+
+    class Sub(ast.NodeTransformer):
+        def visit_Name(self, n):
+            if isinstance(n.ctx, ast.Load) and n.id in env:
+                return copy.deepcopy(env[n.id])
+            return n
+
+        def visit_Call(self, n):
+            n = self.generic_visit(n)
+            if call_name(n) == "soft_threshold":
+                v = _inline_soft_threshold(unit, n)
+                if v is not None and v != "zero":
+                    return v
+            return n
+    for st in body[:-1]:
+        if isinstance(st, ast.Assign) and len(st.targets) == 1 and isinstance(st.targets[0], ast.Name):
+            env[st.targets[0].id] = Sub().visit(copy.deepcopy(st.value))
+        elif isinstance(st, ast.Assign) and len(st.targets) == 1 and isinstance(st.targets[0], ast.Tuple) and all(isinstance(e, ast.Name) for e in st.targets[0].elts):
+            val = Sub().visit(copy.deepcopy(st.value))
+            if isinstance(val, ast.Tuple) and len(val.elts) == len(st.targets[0].elts):
+                for t_, v_ in zip(st.targets[0].elts, val.elts):
+                    env[t_.id] = v_
+            elif isinstance(val, ast.Attribute) and val.attr == "shape":
+                for i_, t_ in enumerate(st.targets[0].elts):
+                    env[t_.id] = ast.Subscript(value=copy.deepcopy(val), slice=ast.Constant(value=i_), ctx=ast.Load())
+            else:
+                return None
+        else:
+            return None
+    return ast.fix_missing_locations(Sub().visit(copy.deepcopy(body[-1].value)))
+
+
+def _whole_function_is_hier_prox(ctx, u, f, qn):
+    """name-independent decision: the returned pair, with every local substituted, is canonically the HIER-PROX closed form (reference
+    above, itself substituted the same way).  True -> every clause of C05-c about the formulas is discharged at once."""
+    import copy
+    try:
+        got = _resolve_all(f, u)
+        ref_f = ast.parse(HIER_PROX_REFERENCE).body[0]
+        ref = _resolve_all(ref_f, u)
+    except Exception:
+        return False
+    if got is None or ref is None or not (isinstance(got, ast.Tuple) and len(got.elts) == 2):
+        return False
+    params = func_params(f)[:4]
+    ren = dict(zip(params, ["V", "U", "alpha", "M"]))
+
+    class Ren(ast.NodeTransformer):
+        def visit_Name(self, n):
+            return ast.copy_location(ast.Name(id=ren.get(n.id, n.id), ctx=n.ctx), n)
+    got = ast.fix_missing_locations(Ren().visit(got))
+    from ..pm import canon_node
+    ok = all(canon_equal(canon_node(a), canon_node(b)) for a, b in zip(got.elts, ref.elts))
+    if ok:
+        for k in HIER_SITES:
+            ctx.ok("C05-c", f"{qn}: {k}", "returned pair == HIER-PROX closed form with every local substituted")
+    return ok
+
+
 def hier(pm, ctx, u):
     _returns_inputs(ctx, u, "mlp_prox_grad", "every return yields computed (beta*, theta*)")
     _returns_inputs(ctx, u, "group_mlp_prox_grad", "every return yields the assembled results of the elementary operator")
     f = u.func("mlp_prox_grad")
     qn = "mlp_prox_grad"
     vp, up, ap, Mp = func_params(f)[:4]
+    if _whole_function_is_hier_prox(ctx, u, f, qn):
+        _hier_shapes(pm, ctx, u, f, qn)
+        return
     defs = {}
     for s_ in f.body:
         if isinstance(s_, ast.Assign) and len(s_.targets) == 1 and isinstance(s_.targets[0], ast.Name):
@@ -449,6 +541,10 @@ def hier(pm, ctx, u):
         ctx.ok("C05-c", f"{qn}: returns (beta*, theta*)")
     else:
         ctx.violation("C05-c", u.relpath, qn, norm_src(rets[0]) if rets else "return", "the pair is not returned as (skip weights, hidden weights)", line=f.lineno, site=f"{qn}: return")
+    _hier_shapes(pm, ctx, u, f, qn)
+
+
+def _hier_shapes(pm, ctx, u, f, qn):
     # shapes
     I = Interp(pm)
     D, K, H = Ax("D"), Ax("K"), Ax("H")
